@@ -1231,6 +1231,12 @@ func main() {
 			n = 3
 		}
 		for _, plus := range []bool{false, true} {
+			if !thorough && strings.HasPrefix(fixtures[fi].Name, "vs-cross") && (fi+int(a.Seed%2)+b2i(plus))%2 == 1 {
+				// quick tier: each selector-crossing VirtualServer world runs in one edition, alternating with the
+				// fixture and the seed (the validator and generator choices it crosses do not depend on the edition;
+				// the thorough tier runs both)
+				continue
+			}
 			for c := 0; c < n; c++ {
 				jobs = append(jobs, job{fi, plus, c, n})
 			}
